@@ -13,6 +13,7 @@
 #include "defs.h"
 #include "list.h"
 #include "platform.h"
+#include "thread.h"
 
 typedef struct nni_pollable nni_pollable;
 
@@ -27,6 +28,7 @@ extern nng_err nni_pollable_getfd(nni_pollable *, int *);
 struct nni_pollable {
 	nni_atomic_u64  p_fds;
 	nni_atomic_bool p_raised;
+	nni_mtx         p_mtx; // keeps the flag and the pipe's content in step
 };
 
 extern void nni_pollable_init(nni_pollable *);
